@@ -208,7 +208,52 @@ func runC11(tier string) int {
 		o.Switches = map[string]string{"PV": "SEL"}
 		c11EvalSrc(r, sc, src, &o, fmt.Sprintf("AutoVar statement kind=%d stmt=%d inside poryswitch form=%d", kind, stmtKind, form), true)
 	})
-	if !done || !swDone || !pswDone {
+	// Loops whose body holds no command of its own: only a break, only a continue, nothing, or a guarded break. Nothing but
+	// the AutoVar command of the condition is observable there (lazy mode), and it must run each time the condition is evaluated.
+	const nLoopBodies = 5
+	lbDone := r.Parallel(uint64(numAutoKinds*numAutoForms*2*nLoopBodies*2), func(w int, idx uint64) {
+		kind := int(idx) % numAutoKinds
+		rest := int(idx) / numAutoKinds
+		form := rest % numAutoForms
+		rest /= numAutoForms
+		loopKind, bodyKind, compound := rest%2, rest/2%nLoopBodies, rest/2/nLoopBodies
+		cond := &model.Cond{Kind: model.CLeaf, Leaf: autoLeaf(kind, form, 1)}
+		if compound == 1 {
+			cond = &model.Cond{Kind: model.CAnd, L: mflag("G2"), R: cond}
+		}
+		var body []model.Stmt
+		text := ""
+		switch bodyKind {
+		case 0:
+			body = []model.Stmt{{Kind: model.SBreak}}
+		case 1:
+			body = []model.Stmt{{Kind: model.SContinue}}
+		case 2:
+			body = nil
+		case 3:
+			body = []model.Stmt{{Kind: model.SIf, Arms: []model.Arm{{Cond: mflag("G1"), Body: []model.Stmt{{Kind: model.SBreak}}}}}}
+		default:
+			// the break is what a poryswitch leaves behind
+			body = []model.Stmt{{Kind: model.SBreak}}
+			text = "poryswitch(PV) {\n\t\t\tNOPE { other }\n\t\t\t_ { break }\n\t\t}"
+		}
+		st := model.Stmt{Kind: model.SWhile, Cond: cond, Body: body}
+		if loopKind == 1 {
+			st.Kind = model.SDoWhile
+		}
+		sc := &model.Script{Name: "S", Body: []model.Stmt{mcmd("p"), st, mcmd("z")}}
+		src := model.Print([]*model.Script{sc})
+		if text != "" {
+			if !strings.Contains(src, "\t\tbreak\n") {
+				panic("C11: loop body rendering changed")
+			}
+			src = strings.Replace(src, "\t\tbreak\n", "\t\t"+text+"\n", 1)
+		}
+		o := *copts
+		o.Switches = map[string]string{"PV": "SEL"}
+		c11EvalSrc(r, sc, src, &o, fmt.Sprintf("AutoVar loop condition kind=%d form=%d loop=%d commandless-body=%d compound=%d", kind, form, loopKind, bodyKind, compound), true)
+	})
+	if !done || !swDone || !pswDone || !lbDone {
 		r.NotExhaustive("job list not completed")
 	}
 	r.Set("max_leaves", maxK)
@@ -217,7 +262,7 @@ func runC11(tier string) int {
 	r.Assume("command config: fixed var_name, var_name_arg_position 0 and 1, a command without argument list, a constant argument, an inline text argument",
 		"the preamble is an observable command whose text is the statement rendering 'name arg, arg' (C10 checks that rendering rule separately)")
 	return r.Finish(r.Get("evaluations"), r.Get("nontrivial"),
-		"C02's expression trees with 1-2 leaves replaced by AutoVar leaves (7 command kinds incl. arguments containing '%' x 9 comparison forms, rotated for k>=3) x decorations x 14 condition positions (the 14th - a trailing elif with an empty body - in lazy mode: its AutoVar command must still run) x optimize on/off, plus AutoVar switch operands in 7 contexts (incl. switches nested in its cases and the AutoVar switch nested in another switch), plus AutoVar switch / if / while / do...while statements inside poryswitch cases (colon and brace form, selected directly and through '_'); the programs with <= 2 leaves, the switch programs and the poryswitch-wrapped ones also compiled with line markers on, without and with an input path; lockstep exploration (the preamble command, each operand read and each body command are observable events); non-trivial = >= 2 leaves or a switch")
+		"C02's expression trees with 1-2 leaves replaced by AutoVar leaves (7 command kinds incl. arguments containing '%' x 9 comparison forms, rotated for k>=3) x decorations x 14 condition positions (the 14th - a trailing elif with an empty body - in lazy mode: its AutoVar command must still run) x optimize on/off, plus AutoVar switch operands in 7 contexts (incl. switches nested in its cases and the AutoVar switch nested in another switch), plus AutoVar switch / if / while / do...while statements inside poryswitch cases (colon and brace form, selected directly and through '_'), plus while / do...while loops with an AutoVar condition (alone and behind &&) whose body holds no command (break, continue, nothing, a guarded break, a poryswitch that leaves a break; lazy mode); the programs with <= 2 leaves, the switch programs and the poryswitch-wrapped ones also compiled with line markers on, without and with an input path; lockstep exploration (the preamble command, each operand read and each body command are observable events); non-trivial = >= 2 leaves or a switch")
 }
 
 func c11Eval(r *harness.Run, sc *model.Script, copts *comp.Opts, desc string, nontrivial bool) {
@@ -232,7 +277,7 @@ func c11EvalSrc(r *harness.Run, sc *model.Script, text string, copts *comp.Opts,
 		// position 13 (a trailing elif with an empty body): nothing depends on the operands there, so only the commands are
 		// observable (lazy mode); everywhere else every operand read is an event (lockstep)
 		mode := machine.Lockstep
-		if strings.Contains(desc, " pos=13 ") {
+		if strings.Contains(desc, " pos=13 ") || strings.Contains(desc, "commandless-body") {
 			mode = machine.Lazy
 		}
 		ok, rej, st, v, out := checkScripts(scripts, src, opt, mode, copts)
